@@ -79,7 +79,8 @@ func fmtHM(min int, pad bool) string {
 }
 
 var interestingDays = []string{"2000-02-28", "2000-02-29", "2000-03-01", "2000-12-31", "2001-01-01", "2001-02-28", "2001-03-01",
-	"2004-02-29", "2000-01-02", "2000-01-08", "2000-01-09", "2010-06-30", "2010-07-01", "2024-02-29", "2024-12-31", "2025-01-01", "2000-04-30"}
+	"2004-02-29", "2000-01-02", "2000-01-08", "2000-01-09", "2010-06-30", "2010-07-01", "2024-02-29", "2024-12-31", "2025-01-01", "2000-04-30",
+	"2023-03-01", "2021-03-02", "2021-05-01", "2021-12-31", "2022-01-01", "2000-03-01"}
 
 func runC14(s *Sim) {
 	wl := s.WL
@@ -148,6 +149,10 @@ func runC14(s *Sim) {
 	}
 	for i := 0; i < nDates; i++ {
 		d := interestingDays[wl.Draw(len(interestingDays))]
+		if wl.Chance(1, 6) {
+			// well-formed entries that name no calendar day allow no day (they must not roll over into the next one)
+			d = []string{"2023-02-29", "2021-02-30", "2021-04-31", "2022-01-00", "2021-13-01", "2000-02-30"}[wl.Draw(6)]
+		}
 		sp.Dates = append(sp.Dates, d)
 	}
 	// epochs: days to visit
@@ -156,7 +161,14 @@ func runC14(s *Sim) {
 		var d time.Time
 		switch {
 		case len(sp.Dates) > 0 && wl.Chance(2, 3):
-			d, _ = time.Parse("2006-01-02", sp.Dates[wl.Draw(len(sp.Dates))])
+			ds := sp.Dates[wl.Draw(len(sp.Dates))]
+			var e error
+			if d, e = time.Parse("2006-01-02", ds); e != nil {
+				// an entry that names no calendar day: visit the day it would roll over into
+				var yy, mm, dd int
+				fmt.Sscanf(ds, "%d-%d-%d", &yy, &mm, &dd)
+				d = time.Date(yy, time.Month(mm), dd, 0, 0, 0, 0, time.UTC)
+			}
 			d = d.AddDate(0, 0, wl.Draw(3)-1)
 		case wl.Chance(1, 2):
 			d, _ = time.Parse("2006-01-02", interestingDays[wl.Draw(len(interestingDays))])
